@@ -38,7 +38,7 @@ THEOREMS = ["fasta_read_write", "fasta_rewrap_invariant", "fasta_file_lines", "f
             "compalign_self_is_perfect", "compalign_correct_le_counted",
             # round 6: the streamed (--small) paths: esl_msafile2_RegurgitatePfam as esl-alimask / esl-alimanip call it, esl-alistat --small
             "small_regurgitate_rows", "small_regurgitate_identity", "small_regurgitate_seq_line", "small_mask_shrinks",
-            "small_wanted_sublist", "small_alistat_is_projection", "small_reformat_afa_eq_reference", "small_reformat_pfam_rows",
+            "small_wanted_sublist", "small_alistat_is_projection", "small_reformat_afa_eq_reference", "small_reformat_pfam_rows", "small_seq_k_seq_r_split",
             # round 6: esl-alimerge (in-memory mode)
             "alimerge_restriction", "alimerge_length", "alimerge_rows_stay_aligned", "alimerge_insert_regions_partition", "alimerge_adds_only_gaps", "alimerge_maxgap_dominates"]
 
@@ -1532,7 +1532,7 @@ def ref_small(rng, i):
         case["same_out"] = True; case["nopred_first"] = True
     elif which == "alimask":
         alen = len(rows0[0][1])
-        mode = rng.choice(["-t", "-t", "maskfile", "rf"]) if rf0 else rng.choice(["-t", "maskfile"])
+        mode = rng.choice(["-t", "-t", "maskfile", "rf", "-g", "-g"]) if rf0 else rng.choice(["-t", "maskfile", "-g"])
         ops = [op_file("in.sto", text)]
         if mode == "-t":
             a = rng.randrange(1, alen + 1); b = rng.randrange(a, alen + 1)
@@ -1542,6 +1542,12 @@ def ref_small(rng, i):
             if "1" not in m: m = "1" + m[1:]
             ops.append(op_file("mask", m + "\n"))
             base = ["--informat", "pfam", ABCFLAG[abc], "in.sto", "mask"]
+        elif mode == "-p":
+            base = ["-p"] + (["--pfract", rng.choice(["0.0", "0.3", "0.5", "0.95", "1.0"])] if rng.random() < 0.6 else []) \
+                   + (["--pthresh", rng.choice(["0.0", "0.35", "0.65", "0.95", "1.0"])] if rng.random() < 0.6 else []) \
+                   + (["--pallgapok"] if rng.random() < 0.3 else []) + ["--informat", "pfam", ABCFLAG[abc], "in.sto"]
+        elif mode == "-g":
+            base = ["-g"] + (["--gapthresh", rng.choice(["0.0", "0.2", "0.5", "0.75", "1.0", "0.3333"])] if rng.random() < 0.7 else []) + ["--informat", "pfam", ABCFLAG[abc], "in.sto"]
         else:
             base = ["--rf-is-mask", "--informat", "pfam", ABCFLAG[abc], "in.sto"]
         case["ops"] = ops + [op_run("esl-alimask", base), op_run("esl-alimask", ["--small"] + base)]
